@@ -54,6 +54,7 @@ func init() {
 			{ID: "C07-R29", Title: "reload re-points every function of the reloaded code, whatever its nesting depth (shared with C18-R3)", Floor: 2, Run: c18r3},
 			{ID: "C07-R30", Title: "a refused invocation writes nothing to the VM (shared with C06-R22)", Floor: 8, Run: refusedInvocationsWriteNothing},
 			{ID: "C07-R31", Title: "options that are refused are rolled back", Floor: 3, Run: refusedOptionsAreRolledBack},
+			{ID: "C07-R32", Title: "a host Call leaves the resume point alone", Floor: 1, Run: aHostCallLeavesTheResumePointAlone},
 		},
 	})
 }
